@@ -2,8 +2,10 @@ package rules
 
 import (
 	"fmt"
+	"go/ast"
 	"go/constant"
 	"go/token"
+	"go/types"
 	"math/big"
 	"sort"
 	"strings"
@@ -670,4 +672,105 @@ func monitorPath(p *an.Path) bool {
 		}
 	}
 	return false
+}
+
+// shadowedErrorResults finds, in function f (by its syntax), a named result of
+// type error that is shadowed by a short variable declaration in an inner
+// block while a return statement outside that block still returns the named
+// result: the inner failure is then lost (the function reports success). It
+// returns a description per finding.
+func (c *Ctx) shadowedErrorResults(f *ssa.Function) []string {
+	decl, ok := f.Syntax().(*ast.FuncDecl)
+	if !ok || decl.Type.Results == nil || decl.Body == nil {
+		return nil
+	}
+	var info *types.Info
+	for _, pkg := range c.P.Pkgs {
+		if pkg.Types == f.Pkg.Pkg {
+			info = pkg.TypesInfo
+		}
+	}
+	if info == nil {
+		return nil
+	}
+	// named error results
+	named := map[types.Object]string{}
+	for _, fld := range decl.Type.Results.List {
+		for _, nm := range fld.Names {
+			if o := info.Defs[nm]; o != nil && types.TypeString(o.Type(), nil) == "error" {
+				named[o] = nm.Name
+			}
+		}
+	}
+	if len(named) == 0 {
+		return nil
+	}
+	var out []string
+	for res, name := range named {
+		// inner := declarations of the same name (a different object) assigned from a call
+		var shadows []*ast.AssignStmt
+		ast.Inspect(decl.Body, func(n ast.Node) bool {
+			as, ok := n.(*ast.AssignStmt)
+			if !ok || as.Tok != token.DEFINE {
+				return true
+			}
+			for _, lhs := range as.Lhs {
+				id, ok := lhs.(*ast.Ident)
+				if !ok || id.Name != name {
+					continue
+				}
+				if o := info.Defs[id]; o != nil && o != res {
+					hasCall := false
+					for _, r := range as.Rhs {
+						ast.Inspect(r, func(m ast.Node) bool {
+							if _, isCall := m.(*ast.CallExpr); isCall {
+								hasCall = true
+							}
+							return true
+						})
+					}
+					if hasCall {
+						shadows = append(shadows, as)
+					}
+				}
+			}
+			return true
+		})
+		if len(shadows) == 0 {
+			continue
+		}
+		// is the named result ever assigned? if it is never written, every return of it yields nil
+		written := false
+		ast.Inspect(decl.Body, func(n ast.Node) bool {
+			if as, ok := n.(*ast.AssignStmt); ok && as.Tok != token.DEFINE {
+				for _, lhs := range as.Lhs {
+					if id, ok := lhs.(*ast.Ident); ok && info.Uses[id] == res {
+						written = true
+					}
+				}
+			}
+			return true
+		})
+		// a return that yields the named result
+		returnsNamed := false
+		ast.Inspect(decl.Body, func(n ast.Node) bool {
+			rs, ok := n.(*ast.ReturnStmt)
+			if !ok {
+				return true
+			}
+			if len(rs.Results) == 0 {
+				returnsNamed = true
+			}
+			for _, r := range rs.Results {
+				if id, ok := r.(*ast.Ident); ok && info.Uses[id] == res {
+					returnsNamed = true
+				}
+			}
+			return true
+		})
+		if returnsNamed && !written {
+			out = append(out, fmt.Sprintf("named result %q is shadowed by `%s :=` at %s and never assigned, yet returned: the failure is reported as success", name, name, c.pos(shadows[0].Pos())))
+		}
+	}
+	return out
 }
